@@ -277,8 +277,17 @@ def util_files():
     return {"Util": U}
 
 
+def estimator_files():
+    from cyecca.estimate.attitude import algorithms
+    e = algorithms.eqs()
+    files = {}
+    files["Sim"] = [("sim." + k, (lambda f=f: f)) for k, f in e["sim"].items()]
+    files["Mrp"] = [("mrp." + k, (lambda f=f: f)) for k, f in e["mrp"].items()]
+    return files
+
+
 def all_files():
     files = {}
-    for part in (lie_files, series_files, quadrotor_files, bezier_files, rdd2_files, util_files):
+    for part in (lie_files, series_files, quadrotor_files, bezier_files, rdd2_files, util_files, estimator_files):
         files.update(part())
     return files
